@@ -297,6 +297,30 @@ def c02_part(ctx, vh, model, report, extra):
                 report(bad, replay)
             elif L.canon(i, "real") != L.canon(m, "real"):
                 report("PAR1 (real directory) differs from the model: impl=%s model=%s" % (i[:90], m[:90]), replay, True)
+    # parity volumes with a valid control hash and the right set hash but WRONG parity bytes (a stale volume of an earlier
+    # version with the same file hashes recorded, a faulty writer), exactly as many as files are lost: reconstruction gives
+    # wrong bytes, a re-encoding double check agrees with the volumes it used, and only the file hashes can stop the write
+    sfiles = [("keep.bin", L.gen_content(rng, "random", 33), True), ("lost1.bin", L.gen_content(rng, "random", 20), True), ("lost2.bin", L.gen_content(rng, "random", 27), True)]
+    ss = P1.SpecSet1(sfiles, 2)
+    for nlost in (1, 2):
+        arc = {D + "/arc.par": ss.index()}
+        for v in range(1, nlost + 1):
+            arc[D + "/arc.p%02d" % v] = P1.volume_bytes(ss.entries, ss.hashes, v, L.gen_content(rng, "random", 33))
+        for dbl in (False, True):
+            fs = dict(arc); fs.update({D + "/" + n_: d_ for n_, d_, _ in sfiles[:3 - nlost]})
+            line = P1.line_repair("mem", D + "/arc.par", dbl, fs)
+            i, m = run_both(ctx, vh, model, [line])
+            pi = L.parse_result(i[0])
+            n += 1
+            ctx.count("p1c02-stale|%d|%s" % (nlost, dbl), True)
+            originals = {D + "/" + n_: d_ for n_, d_, _ in sfiles}
+            wrongw = [p_ for p_, d_ in pi["changed"].items() if originals.get(p_) != d_]
+            replay = {"lines": [line], "mode": "mem", "impl": i[0][:1200], "model": m[0][:1200], "class": {"par1": "c02-stale-volume"}}
+            if wrongw or pi["res"] == "ok":
+                report("PAR1 Repair with parity volumes holding wrong parity (valid control hash, %d lost = %d volumes, double check %s) wrote %s and returned %s" %
+                       (nlost, nlost, dbl, wrongw, pi["res"]), replay)
+            elif L.canon(i[0], "mem") != L.canon(m[0], "mem"):
+                report("PAR1 Repair with wrong-parity volumes differs from the model: impl=%s model=%s" % (i[0][:90], m[0][:90]), replay, True)
     # a Repair that fails part-way (the second or a later write fails): what was rewritten before must be listed and exact
     s = small_created(ctx, vh, model, report, rng, nf=3, nv=3)
     pn = 0
